@@ -24,6 +24,7 @@ type cenv struct {
 	scopePos token.Pos       // position for resolving locals of the function under verification (NoPos: none)
 	fnObj    *types.Func
 	qscopes  []map[string]Term
+	loopN    int // the loop a loop clause belongs to: `idx`, `visited`, `cur` without a number mean that loop's
 }
 
 func (ce *cenv) fail(format string, args ...any) {
@@ -156,6 +157,9 @@ func (ce *cenv) ident(name string) Term {
 	}
 	fc := ce.fc
 	// ghost loop variables: visitedN (set of keys already iterated in map-range loop N), idxN, curN
+	if ce.loopN > 0 && (name == "idx" || name == "visited" || name == "cur") {
+		name = name + strconv.Itoa(ce.loopN)
+	}
 	if m := reLoopGhost.FindStringSubmatch(name); m != nil {
 		n, _ := strconv.Atoi(m[2])
 		var k any
